@@ -180,6 +180,12 @@ structure St where
   -- ghost history
   accepted : Bool := false
   negotiated : Bool := false
+  /-- verdict of checkInitialMessage, once it has returned -/
+  verdict : Option Bool := none
+  /-- the environment called `Close` (directly or at the end of a successful `Shutdown`) -/
+  closedLocally : Bool := false
+  /-- the connection failed: EOF or error on read, error on write -/
+  broken : Bool := false
   first : Option Frame := none
   peerSent : List Frame := []
   received : List Frame := []
@@ -364,7 +370,7 @@ def eff (s : St) : Act → St
   | .callIssue c typ pay nowait =>
     setC s c { s.callers c with pc := .waitReady, typ := typ, pay := pay, nowait := nowait, internal := false }
   | .cancel c => setC s c { s.callers c with cancelled := true }
-  | .close => { s with done := true, closeLog := s.closeLog ++ [!s.done] }
+  | .close => { s with done := true, closedLocally := true, closeLog := s.closeLog ++ [!s.done] }
   | .callReady c => setC s c { s.callers c with pc := .queued }
   | .callSeeDone c => leave s c .closed
   | .callSeeCtx c => leave s c .ctx
@@ -379,8 +385,9 @@ def eff (s : St) : Act → St
     | f :: rest => { s with inbox := rest, received := s.received ++ [f], rd := .hdr f,
                             rcvClosed := s.rcvClosed || f.typ == tCloseConnectionResponse }
     | [] => s
-  | .rdEof => if s.rcvClosed then { s with rd := .eofWait } else { s with rd := .exited .fail, errs := s.errs ++ [.fail] }
-  | .rdFail => { s with rd := .exited .fail, errs := s.errs ++ [.fail] }
+  | .rdEof => if s.rcvClosed then { s with rd := .eofWait }
+    else { s with rd := .exited .fail, errs := s.errs ++ [.fail], broken := true }
+  | .rdFail => { s with rd := .exited .fail, errs := s.errs ++ [.fail], broken := true }
   | .rdDispatch => match s.rd with
     | .hdr f =>
       if unsolicited f.typ then { s with rd := .handle f } else
@@ -416,17 +423,18 @@ def eff (s : St) : Act → St
     | .writing f o => { s with written := s.written ++ [⟨f, o, s.negotiated⟩],
                                wr := if f.typ = tCloseConnection then .parked else .idle }
     | _ => s
-  | .wrFail => { s with wr := .exited .fail, errs := s.errs ++ [.fail] }
+  | .wrFail => { s with wr := .exited .fail, errs := s.errs ++ [.fail], broken := true }
   | .wrParkedDone => { s with wr := .exited .closed, errs := s.errs ++ [.closed] }
   | .connStart => { s with conn := .initial }
   | .connInitial payOk neg => match s.inbox with
     | f :: rest =>
       let s1 := { s with inbox := rest, first := some f, ackQ := if f.big then s.ackQ else ackPush s.ackQ f }
       if initialOk f payOk then
-        { s1 with accepted := true, rd := .idle, wr := .idle, conn := if neg then .negIdle false else .readying }
-      else { s1 with conn := .rejected }
+        { s1 with accepted := true, verdict := some true, rd := .idle, wr := .idle,
+                  conn := if neg then .negIdle false else .readying }
+      else { s1 with verdict := some false, conn := .rejected }
     | [] => s
-  | .connInitialFail _ => { s with conn := .rejected }
+  | .connInitialFail _ => { s with verdict := some false, conn := .rejected }
   | .connRejectReady => { s with ready := true, conn := .failing .fail }
   | .connNegSend c typ pay =>
     let second := s.conn == .negIdle true
